@@ -36,6 +36,9 @@ structure Err where
   rpath : List Tok := []        -- innermost first, as in the Go code
   value : Option J := none
   reason : List Frag := []
+  /-- the failing check is NOT preceded by `if settings.failfast { return errSchema }` (pattern, format, read-only /
+  write-only errors): with FailFast() and MultiErrors() together such a failure is accumulated, every other one returns -/
+  soft : Bool := false
 
 def mark (k : Tok) (e : Err) : Err := { e with rpath := e.rpath ++ [k] }
 def Err.pointer (e : Err) : List Tok := e.rpath.reverse
@@ -98,8 +101,41 @@ def collectCount : List (List Ev) → Nat
   | t :: ts => (if (collectL t).isEmpty then 1 else 0) + collectCount ts
 end
 
-inductive Mode | failfast | dflt | multi
+/-! ### the general fold: which failures make a visitor return at once is a parameter -/
+
+/-- a stop policy -/
+structure Policy where
+  /-- a failing keyword check ends the current level, given its `fatal` flag and its `soft` flag -/
+  leaf : Bool → Bool → Bool
+  /-- a failing property / item ends the current level -/
+  child : Tok → Bool
+
+mutual
+/-- errors reported for one event, and whether the level returns right after it -/
+def Ev.run (π : Policy) : Ev → List Err × Bool
+  | .fail e fatal => ([e], π.leaf fatal e.soft)
+  | .child tok sub => ((runL π sub).1.map (mark tok), !(runL π sub).1.isEmpty && π.child tok)
+  | .comp k e subs => if compOK k (runCount π subs) subs.length then ([], false) else ([e], true)
+def runL (π : Policy) : List Ev → List Err × Bool
+  | [] => ([], false)
+  | e :: es => if (e.run π).2 then e.run π else ((e.run π).1 ++ (runL π es).1, (runL π es).2)
+def runCount (π : Policy) : List (List Ev) → Nat
+  | [] => 0
+  | t :: ts => (if (runL π t).1.isEmpty then 1 else 0) + runCount π ts
+end
+
+/-- the four combinations of FailFast() and MultiErrors() -/
+inductive Mode | failfast | dflt | multi | ffmulti
   deriving DecidableEq, Repr
+
+/-- default / FailFast: every failure returns. MultiErrors: only the fatal ones (type, enum, nullable, compositions).
+FailFast+MultiErrors: every check guarded by `if settings.failfast` returns (errSchema), a failing property returns, a
+failing array item is accumulated (the items loop has no fail-fast guard), soft failures are accumulated. -/
+def Mode.policy : Mode → Policy
+  | .dflt => ⟨fun _ _ => true, fun _ => true⟩
+  | .failfast => ⟨fun _ _ => true, fun _ => true⟩
+  | .multi => ⟨fun fatal _ => fatal, fun _ => false⟩
+  | .ffmulti => ⟨fun fatal soft => fatal || !soft, fun t => match t with | .key _ => true | .idx _ => false⟩
 
 /-- what a validation call reports: `ok`, or the rejecting errors (fail-fast mode carries no detail) -/
 inductive Res | ok | rej (errs : List Err)
@@ -111,6 +147,8 @@ def report (m : Mode) (t : List Ev) : Res :=
   | .dflt => (match firstErrL t with | none => .ok | some e => .rej [e])
   | .failfast => (match firstErrL t with | none => .ok | some _ => .rej [])
   | .multi => (match collectL t with | [] => .ok | es => .rej es)
+  -- FailFast+MultiErrors: a MultiError mixing `errSchema` sentinels with the soft errors; only the verdict is modelled
+  | .ffmulti => (match (runL Mode.ffmulti.policy t).1 with | [] => .ok | _ => .rej [])
 
 /-- indices of the passing traces -/
 def passIdx : List (List Ev) → Nat → List Nat
@@ -120,6 +158,8 @@ def passIdx : List (List Ev) → Nat → List Nat
 /-! ### the trace generator -/
 
 def here (field : String) (v : J) (reason : List Frag) : Err := { field := field, value := some v, reason := reason }
+/-- an error of a site without fail-fast guard -/
+def hereSoft (field : String) (v : J) (reason : List Frag) : Err := { field := field, value := some v, reason := reason, soft := true }
 
 /-- one keyword check -/
 def chk (bad : Bool) (e : Err) (fatal : Bool) : List Ev := if bad then [.fail e fatal] else []
@@ -129,8 +169,11 @@ def typeErr (kw : Kw) (v : J) : Err :=
 
 def nullErr : Err := { field := "nullable", value := none, reason := [.lit "Value is not nullable"] }
 
-def enumEvs (kw : Kw) (v : J) : List Ev :=
-  chk (!enumOK kw v) (here "enum" v [.lit "value is not one of the allowed values ", .schemaEnum kw.enum]) true
+/-- `q` is the value an error QUOTES: the Go error holds a reference to the visited node, so it shows the node as it is
+when the caller looks at it; without default injection that is the node as visited (`q = v`) -/
+def enumEvsQ (kw : Kw) (v q : J) : List Ev :=
+  chk (!enumOK kw v) (here "enum" q [.lit "value is not one of the allowed values ", .schemaEnum kw.enum]) true
+def enumEvs (kw : Kw) (v : J) : List Ev := enumEvsQ kw v v
 
 /-- leaf keyword checks as data, in the code's order: (violated?, error, fatal?) -/
 abbrev Check := Bool × Err × Bool
@@ -147,7 +190,7 @@ def numChecks (kw : Kw) (q : Rat) : List Check :=
   [ (!numTypeOK kw q,
      (if kw.requireInt then here "type" v [.lit "value must be an integer"] else typeErr kw v),
      !kw.requireInt),
-    (!numFormatOK kw q, here "format" v [.lit "integer doesn't match the format ", .schemaQ kw.format, .lit " (",
+    (!numFormatOK kw q, hereSoft "format" v [.lit "integer doesn't match the format ", .schemaQ kw.format, .lit " (",
         .validatorText (match intFormatRange kw.format with
           | some (lo, hi) => s!"value should be between {lo} and {hi}" | none => ""), .lit ")"], false),
     (exclMinBad kw q, here "exclusiveMinimum" v [.lit "number must be more than ", .schemaNum (kw.minimum.getD 0)], false),
@@ -159,12 +202,12 @@ def numChecks (kw : Kw) (q : Rat) : List Check :=
 def minLenBad (kw : Kw) (n : Nat) : Bool := kw.minLength != 0 && decide (n < kw.minLength)
 def maxLenBad (kw : Kw) (n : Nat) : Bool := match kw.maxLength with | some m => decide (m < n) | none => false
 /-- the pattern does not compile -/
-def patCompileBad (env : Env) (kw : Kw) (s : String) : Bool := kw.pattern != "" && (env.regex kw.pattern s).isNone
-def patBad (env : Env) (kw : Kw) (s : String) : Bool := kw.pattern != "" && env.regex kw.pattern s == some false
+def patCompileBad (env : Env) (kw : Kw) (s : String) : Bool := !env.patOff && kw.pattern != "" && (env.regex kw.pattern s).isNone
+def patBad (env : Env) (kw : Kw) (s : String) : Bool := !env.patOff && kw.pattern != "" && env.regex kw.pattern s == some false
 def strFormatBad (env : Env) (kw : Kw) (s : String) : Bool := kw.format != "" && env.strFormat kw.format s == some false
 
 def patCompileErr (kw : Kw) : Err :=
-  { field := "pattern", value := none,
+  { field := "pattern", value := none, soft := true,
     reason := [.lit "cannot compile pattern ", .schemaQ kw.pattern, .lit ": ", .validatorText "regexp error"] }
 
 def strChecks (env : Env) (kw : Kw) (s : String) : List Check :=
@@ -173,60 +216,66 @@ def strChecks (env : Env) (kw : Kw) (s : String) : List Check :=
     (minLenBad kw s.length, here "minLength" v [.lit "minimum string length is ", .schemaNat kw.minLength], false),
     (maxLenBad kw s.length, here "maxLength" v [.lit "maximum string length is ", .schemaNat (kw.maxLength.getD 0)], false),
     (patCompileBad env kw s, patCompileErr kw, false),
-    (patBad env kw s, here "pattern" v [.lit "string doesn't match the regular expression \"", .schemaStr kw.pattern, .lit "\""], false),
-    (strFormatBad env kw s, here "format" v [.lit "string doesn't match the format ", .schemaQ kw.format, .lit " (",
+    (patBad env kw s, hereSoft "pattern" v [.lit "string doesn't match the regular expression \"", .schemaStr kw.pattern, .lit "\""], false),
+    (strFormatBad env kw s, hereSoft "format" v [.lit "string doesn't match the format ", .schemaQ kw.format, .lit " (",
         .validatorText "validator text", .lit ")"], false) ]
 
 def minItemsBad (kw : Kw) (n : Nat) : Bool := kw.minItems != 0 && decide (n < kw.minItems)
 def maxItemsBad (kw : Kw) (n : Nat) : Bool := match kw.maxItems with | some m => decide (m < n) | none => false
 
-def arrChecks (kw : Kw) (xs : List J) : List Check :=
-  let v := J.arr xs
+def arrChecksQ (kw : Kw) (xs : List J) (v : J) : List Check :=
   [ (!kw.permits "array", typeErr kw v, true),
     (minItemsBad kw xs.length, here "minItems" v [.lit "minimum number of items is ", .schemaNat kw.minItems], false),
     (maxItemsBad kw xs.length, here "maxItems" v [.lit "maximum number of items is ", .schemaNat (kw.maxItems.getD 0)], false),
     (kw.uniqueItems && !uniqueB xs, here "uniqueItems" v [.lit "duplicate items found"], false) ]
+def arrChecks (kw : Kw) (xs : List J) : List Check := arrChecksQ kw xs (J.arr xs)
 
 def minPropsBad (kw : Kw) (n : Nat) : Bool := kw.minProps != 0 && decide (n < kw.minProps)
 def maxPropsBad (kw : Kw) (n : Nat) : Bool := match kw.maxProps with | some m => decide (m < n) | none => false
 
-def objChecks (kw : Kw) (kvs : List (String × J)) : List Check :=
-  let v := J.obj kvs
+def objChecksQ (kw : Kw) (kvs : List (String × J)) (v : J) : List Check :=
   [ (!kw.permits "object", typeErr kw v, true),
     (minPropsBad kw kvs.length, here "minProperties" v [.lit "there must be at least ", .schemaNat kw.minProps, .lit " properties"], false),
     (maxPropsBad kw kvs.length, here "maxProperties" v [.lit "there must be at most ", .schemaNat (kw.maxProps.getD 0), .lit " properties"], false) ]
+def objChecks (kw : Kw) (kvs : List (String × J)) : List Check := objChecksQ kw kvs (J.obj kvs)
 
 def reqChecks (env : Env) (p : List (String × S)) (v : J) (kvs : List (String × J)) (ks : List String) : List Check :=
   ks.map (fun k => (!reqOK env p kvs k, mark (.key k) (here "required" v [.lit "property ", .schemaQ k, .lit " is missing"]), false))
 
 /-- the (non-schema) errors "readOnly property … in request" / "writeOnly property … in response": collected first by the
 code but returned only when nothing else at this level returned before — hence last in the event order -/
-def roErr : Err := { field := "<readOnly/writeOnly property present>" }
+def roErr : Err := { field := "<readOnly/writeOnly property present>", soft := true }
 
 def numEvs (kw : Kw) (q : Rat) : List Ev := checkEvs (numChecks kw q)
 def strEvs (env : Env) (kw : Kw) (s : String) : List Ev := checkEvs (strChecks env kw s)
-def arrEvs (kw : Kw) (xs : List J) (childEvs : List Ev) : List Ev := checkEvs (arrChecks kw xs) ++ childEvs
-def objEvs (env : Env) (kw : Kw) (p : List (String × S)) (kvs : List (String × J)) (childEvs : List Ev) : List Ev :=
-  checkEvs (objChecks kw kvs) ++ childEvs ++ checkEvs (reqChecks env p (J.obj kvs) kvs kw.required) ++
+def arrEvsQ (kw : Kw) (xs : List J) (q : J) (childEvs : List Ev) : List Ev := checkEvs (arrChecksQ kw xs q) ++ childEvs
+def objEvsQ (env : Env) (kw : Kw) (p : List (String × S)) (kvs : List (String × J)) (q : J) (childEvs : List Ev) : List Ev :=
+  checkEvs (objChecksQ kw kvs q) ++ childEvs ++ checkEvs (reqChecks env p q kvs kw.required) ++
   chk (roBad env p kvs) roErr false
+def arrEvs (kw : Kw) (xs : List J) (childEvs : List Ev) : List Ev := arrEvsQ kw xs (J.arr xs) childEvs
+def objEvs (env : Env) (kw : Kw) (p : List (String × S)) (kvs : List (String × J)) (childEvs : List Ev) : List Ev :=
+  objEvsQ env kw p kvs (J.obj kvs) childEvs
 
-def ownEvs (env : Env) (kw : Kw) (p : List (String × S)) (v : J) (childEvs : List Ev) : List Ev :=
+/-- own keywords of the visited value `v` (for an object: its members AFTER the default-injection loop), errors quoting `q` -/
+def ownEvsQ (env : Env) (kw : Kw) (p : List (String × S)) (v q : J) (childEvs : List Ev) : List Ev :=
   match v with
   | .null => [.fail nullErr true]
   | .bool _ => chk (!kw.permits "boolean") (typeErr kw v) true
-  | .num q => numEvs kw q
+  | .num x => numEvs kw x
   | .str s => strEvs env kw s
-  | .arr xs => arrEvs kw xs childEvs
-  | .obj kvs => objEvs env kw p kvs childEvs
+  | .arr xs => arrEvsQ kw xs q childEvs
+  | .obj kvs => objEvsQ env kw p kvs q childEvs
+def ownEvs (env : Env) (kw : Kw) (p : List (String × S)) (v : J) (childEvs : List Ev) : List Ev :=
+  ownEvsQ env kw p v v childEvs
 
 def discMissingErr (kw : Kw) : Err :=
   { field := "discriminator", value := none,
     reason := [.lit "input does not contain the discriminator property ", .schemaQ kw.discProp] }
 def discNotStringErr (kw : Kw) (x : J) : Err :=
-  mark (.key kw.discProp) (Err.mk "discriminator" [] (some x)
+  mark (.key kw.discProp) (here "discriminator" x
     [.lit "value of discriminator property ", .schemaQ kw.discProp, .lit " is not a string"])
 def discUnmappedErr (kw : Kw) (x : J) : Err :=
-  mark (.key kw.discProp) (Err.mk "discriminator" [] (some x)
+  mark (.key kw.discProp) (here "discriminator" x
     [.lit "discriminator property ", .schemaQ kw.discProp, .lit " has invalid value"])
 
 /-- the three errors of the discriminator pre-check (fatal); the value-quoting ones are marked with the property name -/
